@@ -65,3 +65,53 @@ func VerifC10_RedirectAuth() {
 	verifAssert(newReq.Header.Get("Accept") == "application/vnd.git-lfs+json", "other headers are copied")
 	verifAssert(newReq.Method == "POST", "the method is preserved")
 }
+
+// ---- redirect chains: hop limit
+
+type verifTransport struct{}
+
+var (
+	verifHops     int
+	verifChainLen int
+	verifHopHosts []string
+)
+
+// verifServe: the scripted server: the first verifChainLen requests are
+// answered with a redirect to the next host, then 200.
+func verifServe(req *http.Request) (*http.Response, error) {
+	k := verifHops
+	verifHops++
+	res := &http.Response{StatusCode: 200, Header: http.Header{}, Body: http.NoBody, Request: req}
+	if k < verifChainLen {
+		res.StatusCode = 307
+		res.Header.Set("Location", "https://"+verifHopHosts[k%len(verifHopHosts)]+"/next")
+	}
+	return res, nil
+}
+
+func (verifTransport) RoundTrip(req *http.Request) (*http.Response, error) { return verifServe(req) }
+
+func verifClientDo(cli *http.Client, req *http.Request) (*http.Response, error) { return verifServe(req) }
+
+// VerifC10_RedirectChain: a chain of redirects is followed for a small fixed
+// number of hops only, then refused with an error.
+func VerifC10_RedirectChain() {
+	verifOverride("(*net/http.Client).Do", verifClientDo)
+	verifOverride("github.com/rubyist/tracerx.Printf", func(format string, args ...interface{}) {})
+	verifHops = 0
+	verifChainLen = verifChoose("chain.length", verifBound("chain", 8, 12))
+	verifHopHosts = []string{"a.example.com", "b.example.com", "c.example.com"}
+	c := &Client{}
+	cli := &http.Client{Transport: verifTransport{}, CheckRedirect: func(*http.Request, []*http.Request) error { return http.ErrUseLastResponse }}
+	req, err := http.NewRequest("GET", "https://start.example.com/objects/batch", nil)
+	verifAssert(err == nil, "request construction")
+	verifKnown("C10-F15-redirect-hop-limit-not-enforced", verifChainLen >= 3)
+	res, derr := c.doWithRedirects(cli, req, "origin", nil)
+	verifCover("chain-followed")
+	verifAssert(verifHops <= 3, "a redirect chain is cut off after a small fixed number of hops")
+	if verifChainLen < 3 {
+		verifAssert(derr == nil && res != nil && res.StatusCode == 200, "a short chain is followed to its end")
+	} else {
+		verifAssert(derr != nil, "a long chain is refused with an error")
+	}
+}
